@@ -13,7 +13,7 @@ for f in sorted(glob.glob(d+'/check_*.log')):
 tests=open(d+'/tests_patched.log').read().strip().splitlines() if os.path.exists(d+'/tests_patched.log') else []
 meta={"breaks_property":prop,"needs_to_manifest":needs,
  "confirmed":{"existing_tests_with_patch":tests[:1],"demo_on_original":open(d+'/demo_orig.log').read().strip().splitlines()[-1:], "demo_with_patch":open(d+'/demo_patched.log').read().strip().splitlines()[-1:]},
- "what_was_run":["tools/eval_seed.sh "+sid+" "+" ".join(res.keys())+"  (scratch worktree: demo on original, git apply, repo tests, demo; then git -C /repo apply, ./check <ID> quick, git -C /repo checkout -- .)"],
+ "what_was_run":["tools/eval_seed.sh (seed "+sid+") "+" "+" ".join(res.keys())+"  (scratch worktree: demo on original, git apply, repo tests, demo; then git -C /repo apply, ./check <ID> quick, git -C /repo checkout -- .)"],
  "checks":res}
 json.dump(meta,open(d+'/meta.json','w'),indent=1)
 print(json.dumps(meta,indent=1)[:1200])
